@@ -413,7 +413,7 @@ def nll_loss_backward(grad: np.ndarray, y_pred: np.ndarray, y_true: np.ndarray) 
 def bce_loss_forward(y_pred: np.ndarray, y_true: np.ndarray) -> np.ndarray:
     loss = - (y_true * np.log(y_pred + epsilon) + (1 - y_true) * np.log(1 - y_pred + epsilon))
     # For compatibility with pytorch (returns 100 when y_pred=0 and y_true=1; vice versa)
-    loss = np.where(loss == -np.log(epsilon), 100, loss) 
+    loss = np.where(loss == -np.log(np.asarray(epsilon, dtype=loss.dtype)), 100, loss) 
     return loss
 
 def bce_loss_backward(grad: np.ndarray, y_pred: np.ndarray, y_true: np.ndarray) -> np.ndarray:
